@@ -340,10 +340,10 @@ Lemma var_with_condition_exact_lemma : forall v c,
   /\ vname (var_with_condition v c) = vname v.
 Proof.
   intros v c. split; [|apply vwc_name].
-  destruct (vwc_cases v c) as [[Ec E]|E]; rewrite E.
-  - subst c. induction (vbindings v); constructor; auto. split; auto.
+  destruct (vwc_cases v c) as [[Ec E]|E]; rewrite E; clear E.
+  - subst c. generalize (vbindings v) as l. induction l; constructor; auto. split; auto.
     intros rho. simpl. rewrite andb_true_r. reflexivity.
-  - simpl. induction (vbindings v); simpl; constructor; auto. split; auto.
+  - simpl. generalize (vbindings v) as l. induction l; simpl; constructor; auto. split; auto.
     intros rho. simpl. apply holds_and2.
 Qed.
 
